@@ -735,6 +735,7 @@ func main() {
 		total := 2500
 		if c.Thorough() {
 			total = 40000
+			metaTooLarge(c, pool) // one 100 MB history: thorough tier only (~10 s)
 		}
 		for i := 0; i < total; i++ {
 			var ops []op
@@ -787,6 +788,30 @@ func okChecks(file []byte, dline string, dm *mux.Demuxer, sh *shadow, maskCanvas
 		}
 	}
 	return ""
+}
+
+// metaTooLarge: SetEXIF with maxMetadataSize+1 bytes.  Either Assemble rejects it with an
+// error, or the assembled file must demux (model: Assemble accepts, the demuxer refuses).
+func metaTooLarge(c *Ctx, pool []muxh.PoolItem) {
+	c.D.Evaluations++
+	c.Count("gen-meta-too-large")
+	defer func() {
+		if r := recover(); r != nil {
+			c.Violate("assemble-panics", fmt.Sprint("metadata > 100 MB: ", r), "AF <pool[0]> EX <104857601 zero bytes>")
+		}
+	}()
+	m := mux.NewMuxer()
+	m.AddFrame(pool[0].Data, nil)
+	m.SetEXIF(make([]byte, 100*1024*1024+1))
+	var buf bytes.Buffer
+	if err := m.Assemble(&buf); err != nil {
+		c.Count("meta-too-large-rejected")
+		return
+	}
+	if _, err := mux.NewDemuxer(buf.Bytes()); err != nil {
+		c.Violate("meta-too-large", "Assemble accepts EXIF of maxMetadataSize+1 bytes set with SetEXIF; the demuxer rejects the assembled file: "+err.Error(),
+			map[string]any{"ops": "AF <pool[0]> EX <104857601 zero bytes>"})
+	}
 }
 
 func evalCase(c *Ctx, ops []op, kind string) {
